@@ -29,7 +29,9 @@ func runGrammarVsModel(c *engine.Ctx, g *gen.Grammar, size int, inputs []any, ex
 			c.Sample(map[string]any{"program": prog, "inputs": len(inputs)})
 		}
 	})
-	c.Count("programs:"+g.Name, int64(idx))
+	if c.Shard == 0 {
+		c.Count("programs:"+g.Name, int64(idx))
+	}
 }
 
 func compareProgram(c *engine.Ctx, prog string, inputs []any, extra func(prog string, q *gojq.Query, in any) (string, string)) {
